@@ -30,6 +30,31 @@ fn w(c: &Composer, s: &str) -> Witness {
     c.verif_witness(i).expect("witness index in range")
 }
 
+fn err_kind(e: &Error) -> String {
+    let d = format!("{:?}", e);
+    d.split(|c: char| !c.is_alphanumeric()).next().unwrap_or("?").to_string()
+}
+
+fn ext_of(t: &[&str]) -> dusk_jubjub::JubJubExtended {
+    dusk_jubjub::JubJubExtended::from_raw_unchecked(
+        fr_of_hex(t[0]), fr_of_hex(t[1]), fr_of_hex(t[2]), fr_of_hex(t[3]), fr_of_hex(t[4]),
+    )
+}
+
+fn wp(c: &Composer, x: &str, y: &str) -> WitnessPoint {
+    Composer::verif_point(w(c, x), w(c, y))
+}
+
+fn tf(p: WitnessPoint) -> TorsionFreeWitnessPoint {
+    TorsionFreeWitnessPoint::new_unchecked(p)
+}
+
+fn push_point(p: &WitnessPoint) {
+    push_result(p.x().index());
+    push_result(p.y().index());
+    outln!("R {} {}", p.x().index(), p.y().index());
+}
+
 fn mk_c(c: &Composer, t: &[&str]) -> Constraint {
     // m l r o f c pi a b c d
     let mut k = Constraint::new()
@@ -218,6 +243,84 @@ fn step_fallible(c: &mut Composer, line: &str) -> Result<(), Error> {
             let x = dispatch::logic_xor(c, t[1].parse().unwrap(), a, b)
                 .expect("width");
             { push_result(x.index()); outln!("R {}", x.index()); }
+        }
+        // ---- embedded-curve components (results: x y witnesses) ----
+        "pt" | "ppt" | "cpt" => {
+            let e = ext_of(&t[1..6]);
+            let r = match t[0] {
+                "pt" => c.append_point(e),
+                "ppt" => c.append_public_point(e),
+                _ => c.append_constant_point(e).map(WitnessPoint::from),
+            };
+            match r {
+                Ok(p) => push_point(&p),
+                Err(e) => { outln!("E {}", err_kind(&e)); return Err(e); }
+            }
+        }
+        "aeqp" => {
+            let (a, b) = (wp(c, t[1], t[2]), wp(c, t[3], t[4]));
+            c.assert_equal_point(a, b);
+        }
+        "aeqpp" => {
+            let a = wp(c, t[1], t[2]);
+            if let Err(e) = c.assert_equal_public_point(a, ext_of(&t[3..8])) {
+                outln!("E {}", err_kind(&e));
+                return Err(e);
+            }
+        }
+        "padd" | "psub" => {
+            let (a, b) = (tf(wp(c, t[1], t[2])), tf(wp(c, t[3], t[4])));
+            let p = if t[0] == "padd" { c.component_add_point(a, b) } else { c.component_sub_point(a, b) };
+            push_point(&p.into());
+        }
+        "pneg" => {
+            let p = c.component_neg_point(tf(wp(c, t[1], t[2])));
+            push_point(&p.into());
+        }
+        "pmul" => {
+            let s = w(c, t[1]);
+            let p = c.component_mul_point(s, tf(wp(c, t[2], t[3])));
+            push_point(&p.into());
+        }
+        "pselid" => {
+            let bit = w(c, t[1]);
+            let p = c.component_select_identity(bit, tf(wp(c, t[2], t[3])));
+            push_point(&p.into());
+        }
+        "pselpt" => {
+            let bit = w(c, t[1]);
+            let (a, b) = (wp(c, t[2], t[3]), wp(c, t[4], t[5]));
+            let p = c.component_select_point(bit, a, b);
+            push_point(&p);
+        }
+        "tors" => {
+            let a = wp(c, t[1], t[2]);
+            c.assert_torsion_free_point(a);
+        }
+        "torsq" => {
+            let a = wp(c, t[1], t[2]);
+            let q = dusk_jubjub::JubJubAffine::from_raw_unchecked(fr_of_hex(t[3]), fr_of_hex(t[4]));
+            c.verif_assert_torsion_free_gates(a, q);
+        }
+        "mulgen" => {
+            let s = w(c, t[1]);
+            match c.component_mul_generator(s, ext_of(&t[2..7])) {
+                Ok(p) => push_point(&p.into()),
+                Err(e) => { outln!("E {}", err_kind(&e)); return Err(e); }
+            }
+        }
+        "fbd" => {
+            // fbd <scalar> <gx> <gy> <256 digits, least significant first: 0 + - x(=2)>
+            let s = w(c, t[1]);
+            let g = dusk_jubjub::JubJubExtended::from(dusk_jubjub::JubJubAffine::from_raw_unchecked(fr_of_hex(t[2]), fr_of_hex(t[3])));
+            let mut d = [0i8; 256];
+            for (i, ch) in t[4].chars().enumerate().take(256) {
+                d[i] = match ch { '+' => 1, '-' => -1, 'x' => 2, _ => 0 };
+            }
+            match c.verif_fixed_base_signed_digits(s, g, &d) {
+                Ok(p) => push_point(&p),
+                Err(e) => { outln!("E {}", err_kind(&e)); return Err(e); }
+            }
         }
         "raw" => {
             let mut co = [BlsScalar::zero(); 12];
